@@ -242,6 +242,9 @@ func (d *Decoder) readTagObject() (interface{}, error) {
 	clsD := d.clsDefList[idx]
 	typ, ok := d.typMap[clsD.FullClassName]
 	if !ok {
+		if d.skipping > 0 {
+			return d.skipObject(clsD)
+		}
 		return nil, newCodecError("readTagObject", "undefined type: %s", clsD.FullClassName)
 	}
 	return EnsureInterface(d.readObject(typ, clsD))
@@ -256,9 +259,24 @@ func (d *Decoder) ReadLenTagObject(tag byte) (interface{}, error) {
 	clsD := d.clsDefList[i]
 	typ, ok := d.typMap[clsD.FullClassName]
 	if !ok {
+		if d.skipping > 0 {
+			return d.skipObject(clsD)
+		}
 		return nil, newCodecError("ReadLenTagObject", "undefined type: %s", clsD.FullClassName)
 	}
 	return EnsureInterface(d.readObject(typ, clsD))
+}
+
+// skipObject read and drop the fields of an instance of a class that is not registered. Only called while the value
+// of an unknown field is being dropped: the instance takes its place in the ref list, nothing else is kept.
+func (d *Decoder) skipObject(cls ClassDef) (interface{}, error) {
+	d.refList = append(d.refList, reflect.ValueOf(&skippedObject{cls.FullClassName}))
+	for _, fld := range cls.FieldName {
+		if _, err := d.ReadData(); err != nil {
+			return nil, newCodecError("skipObject", "failed to skip field '%s' of unregistered class %s", clipName(fld), clipName(cls.FullClassName), err)
+		}
+	}
+	return nil, nil
 }
 
 //readObjectDef read object def
@@ -312,7 +330,10 @@ func (d *Decoder) readObject(typ reflect.Type, cls ClassDef) (interface{}, error
 		if err != nil {
 			hlog.Debugf("%s is not found, will skip type ->p %v", clipName(fldName), typ)
 			// the value of the unknown field is on the wire all the same: read it and drop it
-			if _, err := d.ReadData(); err != nil {
+			d.skipping++
+			_, err := d.ReadData()
+			d.skipping--
+			if err != nil {
 				return nil, newCodecError("readObject", "failed to skip unknown field '%s'", clipName(fldName), err)
 			}
 			continue
